@@ -278,6 +278,7 @@ def run(ctx) -> None:
         comp = rng.choice(list(BOUNDS.keys())) if g in SAM_GENERATORS else rng.choice(sut.SA_COMPUTERS)
         combos.append((g, comp))
     rng.shuffle(combos)
+    combos = [("xos", "sam_apx_1"), ("noisy_factory", "superadditive")] * ctx.nshards + combos      # guaranteed minimum per shard
     for i, (g, comp) in enumerate(combos):
         if i % ctx.nshards != ctx.shard % ctx.nshards and quick:
             continue
@@ -289,8 +290,11 @@ def run(ctx) -> None:
             for a in order:
                 script.append(["step", a])
             script += [["unstep", order[-1]], ["step", order[-1]], ["unstep", order[0]], ["step", order[0]]]
+        b3 = [None, 2, 1, 3][i % 4]        # deterministic mix of step budgets over the n = 3 envs
+        if b3 is not None:
+            ctx.count("budget_envs")
         drive(ctx, {"n": 3, "generator": g, "computer": comp, "gap": rng.choice(list(GAP_FUNCTIONS)),
-                    "budget": rng.choice([None, None, 1, 2, 3]), "seed": rng.randint(0, 10**6), "script": script,
+                    "budget": b3, "seed": rng.randint(0, 10**6), "script": script,
                     "scale": rng.choice(sut.SCALES), "offset": rng.choice(OFFSETS)})
         ctx.count("n3_all_orders_envs")
         if comp.startswith("sam"):
